@@ -175,6 +175,26 @@ def explore_api(ctx, ms, scheduler, n_threads, combos, max_pre, limit, traces):
     return total
 
 
+def _local_models():
+    """Classes defined in a LOCAL scope whose annotations name each other as strings: binding them needs the
+    globalns option of the serializer / parser configuration."""
+    import dataclasses
+    from typing import Optional
+
+    @dataclasses.dataclass
+    class Later:
+        x: Optional[int] = dataclasses.field(default=None, metadata={"type": "Element"})
+
+    @dataclasses.dataclass
+    class LocalHolder:
+        later: Optional["Later"] = dataclasses.field(default=None, metadata={"type": "Element"})
+
+    return LocalHolder, Later, {"Later": Later, "Optional": Optional}
+
+
+LOCALS = _local_models()
+
+
 def meta_ops(mod):
     """Operations whose result depends on XmlMeta / XmlVar state computed lazily or read in several steps."""
     from xsdata.formats.dataclass.parsers import DictDecoder
@@ -196,6 +216,8 @@ def meta_ops(mod):
         "by_fields_all": lambda c: getattr(c.find_type_by_fields({"value", "a", "b"}), "__name__", None),
         "all_vars": lambda c: [[v.name for v in c.build(k).get_all_vars()] for k in (mod.TextAttr, mod.Shuffled)],
         "xml_text": lambda c: XmlSerializer(context=c, config=cfg).render(ta),
+        # a per-call argument (the namespace for resolving annotations) must reach the build it was given for
+        "ser_globalns": lambda c: XmlSerializer(context=c, config=SerializerConfig(xml_declaration=False, globalns=LOCALS[2])).render(LOCALS[0](later=LOCALS[1](x=7))),
         # xsi:type resolution walks what the context knows while other threads make it know more
         "xml_xsi": lambda c: XmlParser(context=c).from_string(
             f'<TextAttr xmlns="urn:m" xmlns:xsi="{XSI}" xsi:type="TextMore" a="1" c="z">t</TextAttr>', mod.TextAttr),
@@ -224,7 +246,8 @@ def explore_meta(ctx, max_pre, limit):
     # (every yield point of the one, then the other to its end); the other pairs up to a limit
     families = [{"dec_text_noclass", "dec_subset_noclass", "by_fields", "by_fields_all"},
                 {"enc_text", "enc_shuffled", "all_vars", "dec_text", "xml_text"},
-                {"xml_xsi", "all_vars", "enc_shuffled"}]
+                {"xml_xsi", "all_vars", "enc_shuffled"},
+                {"ser_globalns", "all_vars", "enc_shuffled"}]
     for i, a in enumerate(names):
         for b in names[i:]:
             related = any(a in f and b in f for f in families)
@@ -370,7 +393,7 @@ def run(ctx):
     n += explore_random(ctx, ms, scheduler, ctx.pick(30, 400), traces)
     ctx.extra["api_interleavings_explored"] = n
     # 3b. the shared binding metadata itself
-    ctx.extra["meta_interleavings_explored"] = explore_meta(ctx, 1, ctx.pick(10, 400))
+    ctx.extra["meta_interleavings_explored"] = explore_meta(ctx, 1, ctx.pick(6, 400))
     for i in range(0, len(traces), 2000):
         validate_traces(ctx, traces[i:i + 2000], f"Trace_ContextT batch {i // 2000}")
 
